@@ -12,7 +12,7 @@ import signal
 from types import SimpleNamespace
 from typing import List
 
-from engine.harness_api import Ob, setup, kf_ok
+from engine.harness_api import Ob, setup, kf_ok, ns
 setup(shim=False)
 
 import gunicorn.arbiter as A  # noqa: E402
@@ -238,7 +238,7 @@ def converge(n0: int, sigs: List[int], tape: List[int], early: List[int], st: Li
                   master_signals=[SIGS[s] for s in sigs], budget=len(sigs) + len(tape) + quiet)
     arb = mk_arbiter(K, n0, timeout=CASE["timeout"])
     undo = KS.install(A, K)
-    A.sock = SimpleNamespace(close_sockets=lambda l, u=True: None)
+    A.sock = ns("A.sock", close_sockets=lambda l, u=True: None)
     exit_code = None
     try:
         try:
@@ -277,7 +277,7 @@ def converge_twin(n0: int, sigs: List[int], tape: List[int], early: List[int], s
                   master_signals=[SIGS[s] for s in sigs], budget=len(sigs) + len(tape) + quiet)
     arb = mk_arbiter(K, n0, timeout=CASE["timeout"])
     undo = KS.install(A, K)
-    A.sock = SimpleNamespace(close_sockets=lambda l, u=True: None)
+    A.sock = ns("A.sock", close_sockets=lambda l, u=True: None)
     try:
         try:
             arb.run()
